@@ -1,6 +1,7 @@
 SPECIFICATION Spec
 CONSTANTS
  Copies = 1  Pad = 0  Concat = FALSE
+ OutOvh = 1
  EarlyTailError = FALSE
  MaxReinit = 0
  CountCalls = TRUE
